@@ -74,8 +74,18 @@ func TestC07Inject(t *testing.T) {
 		// top=(pre+held)%s)
 		for pre := 0; pre <= int(n)+1; pre++ {
 			for held := 0; held <= int(n); held++ {
+				// larger windows: the corner states of the window and the
+				// sequence values around it (every state x every byte is
+				// done for n <= 3 and, on the queue alone, by C09)
+				if n > 3 && !((pre <= 1 || pre >= int(n)) && (held <= 1 || held >= int(n)-1)) {
+					continue
+				}
 				for _, in := range injs {
 					idx++
+					if n > 3 && len(in.pkt) == 2 && (in.pkt[0] == gbn.ACK || in.pkt[0] == gbn.NACK) &&
+						int(in.pkt[1]) > int(n)+2 && in.pkt[1] != 100 && in.pkt[1] < 254 {
+						continue
+					}
 					if !thorough && (idx+int(seed()))%7 != 0 &&
 						!(held == int(n) && pre == int(n)) {
 						continue
